@@ -128,6 +128,9 @@ func g12SkeletonFn(f *File, fd *ast.FuncDecl, body *ast.BlockStmt) []string {
 	var walkExpr func(e ast.Node)
 
 	ignoredCall := func(name string) bool {
+		if strings.Contains(name, ".log.") || strings.HasPrefix(name, "log.") {
+			return true // logging through a logger field (hp.log.Info, ...)
+		}
 		for _, p := range []string{"log.", "fmt.", "errors.New", "strings.", "strconv.", "time.", "make", "len", "append", "int64", "string", "new"} {
 			if name == p || (strings.HasSuffix(p, ".") && strings.HasPrefix(name, p)) {
 				return true
@@ -222,7 +225,9 @@ func g12SkeletonFn(f *File, fd *ast.FuncDecl, body *ast.BlockStmt) []string {
 			// short declarations (x := call()) are represented by their call token
 			for _, l := range n.Lhs {
 				_, isSel := l.(*ast.SelectorExpr)
-				if isSel || n.Tok.String() == "=" {
+				// a message text assigned to a variable (msg = "...", msg = fmt.Sprintf(...)) is data, not control flow
+				textOnly := !isSel && len(n.Rhs) == 1 && g12IsText(f, n.Rhs[0])
+				if (isSel || n.Tok.String() == "=") && !textOnly {
 					var rs []string
 					for _, r := range n.Rhs {
 						rs = append(rs, f.Src(r))
@@ -298,4 +303,17 @@ func g12SkeletonFn(f *File, fd *ast.FuncDecl, body *ast.BlockStmt) []string {
 		walkStmt(s)
 	}
 	return out
+}
+
+// g12IsText: a string literal, a fmt.Sprintf call, or a concatenation of such with other operands (message building)
+func g12IsText(f *File, e ast.Expr) bool {
+	switch x := e.(type) {
+	case *ast.BasicLit:
+		return x.Kind.String() == "STRING"
+	case *ast.CallExpr:
+		return f.Src(x.Fun) == "fmt.Sprintf"
+	case *ast.BinaryExpr:
+		return x.Op.String() == "+" && (g12IsText(f, x.X) || g12IsText(f, x.Y))
+	}
+	return false
 }
